@@ -108,7 +108,8 @@ class CondScenario:
         S.declare("g.badlock", "bool", False)
         S.declare("g.notified", "bool", False)
         wt = set(self.waiter_tids)
-        depth = 2 if reentrant else 1
+        # reentrant: True = every waiter holds the RLock twice; "mixed" = only the first waiter does
+        depth_of = {t: (2 if (reentrant is True or (reentrant == "mixed" and t == 1)) else 1) for t in self.waiter_tids}
 
         def on_sleep(t, S_, label):
             return {f"g.slept.{t.tid}": z3.BoolVal(True)} if t.tid in wt else {}
@@ -132,7 +133,7 @@ class CondScenario:
         def wait_returned(args, kwargs, t, S_):
             r = args[0]
             vn, cn, on = lockm.names(t.proc)
-            holds = z3.And(S_[cn] == BV(depth), S_[on] == BV(t.tid))
+            holds = z3.And(S_[cn] == BV(depth_of.get(t.tid, 1)), S_[on] == BV(t.tid))
             if lockm.kind == SEMAPHORE:
                 holds = z3.And(S_[vn] == 0, S_[cn] != 0, S_[on] == BV(t.tid))
             rz = r if z3.is_expr(r) else z3.BoolVal(bool(r))
@@ -148,13 +149,14 @@ class CondScenario:
         self.obs.define("await_all_registered", await_all_registered)
         self.obs.define("notify_done", notify_done, fused=True)
         self.comp = Compiler(self.ct, self.objects, opaque_calls=["util.debug"])
+        self.comp.declare_auto_fields(S)
         self.comp.immutable = {f"in.timeout.{t}" for t in self.waiter_tids} | {f"in.all.{j}" for j in range(notifiers)}
         self.sys = System(self.objects, S)
         self.sys.local_types = {}
         for t in self.waiter_tids:
             self.sys.local_types[f"in.timeout.{t}"] = "bool"
-        fn = "waiter_reentrant" if reentrant else "waiter"
         for i in range(waiters):
+            fn = "waiter_reentrant" if depth_of[i + 1] == 2 else "waiter"
             nm = f"in.timeout.{i + 1}"
             arg = ("c", fixed[nm]) if nm in fixed else ("v", nm)
             entry = self.compile_fn(fn, [("o", "cond"), ("o", "obs"), arg])
@@ -231,6 +233,7 @@ class EventScenario:
         self.obs.define("is_set_returned", returned, fused=True)
         self.obs.define("set_done", set_done, fused=True)
         self.comp = Compiler(self.ct, self.objects, opaque_calls=["util.debug"])
+        self.comp.declare_auto_fields(S)
         self.sys = System(self.objects, S)
         self.waiter_tids, tid = [], 0
         plan = [("W", "event_waiter", waiters), ("S", "event_setter", setters), ("C", "event_clearer", clearers),
